@@ -177,6 +177,8 @@ where
     }
 
     fn call(&mut self, req: ProtocolRequest<IO, B>) -> Self::Future {
+        #[cfg(feature = "verif-hooks")]
+        use crate::verif_hooks::shim as tokio;
         let builder = std::mem::replace(self, self.clone());
         let stream = req.transport;
 
@@ -229,6 +231,8 @@ where
     }
 
     fn call(&mut self, req: ProtocolRequest<IO, BIn>) -> Self::Future {
+        #[cfg(feature = "verif-hooks")]
+        use crate::verif_hooks::shim as tokio;
         let builder = std::mem::replace(self, self.clone());
         let stream = req.transport;
         // let info = stream.info();
